@@ -5,7 +5,7 @@ import re
 
 import vlib
 
-PROPS = ['Rangers.Props.C01', 'Rangers.Props.C01Sites']
+PROPS = ['Rangers.Props.C01', 'Rangers.Props.C01B', 'Rangers.Props.C01Sites']
 DRIVERS = ['C01']
 META = dict(
     level='proof',
@@ -81,7 +81,7 @@ def gen(ctx):
 
 
 def correspond(ctx):
-    n = 6000 if ctx.thorough() else 1000
+    n = 6000 if ctx.thorough() else 700
     c = vlib.correspond(ctx, 'c01', 'C01', ['n=%d' % n], timeout=1500 if ctx.thorough() else 400,
                         nontrivial=lambda o, x: x not in ('ok', 'bad-op'))
     c['name'] = 'executor-vs-model'
@@ -112,7 +112,7 @@ def search(ctx, hints):
     if ctx.thorough():
         n, cases = 1024, 400
     else:
-        n, cases = 64, (900 if broken else 450)
+        n, cases = 64, (700 if broken else 300)
     res, err = _search_run(ctx, n, cases)
     if res is None:
         return dict(evaluations=0, distinct_nontrivial=0, violations=[], samples=[], error=err)
